@@ -872,3 +872,5 @@ def run(L, tier):
     L.stage(r4_trxcon_sibling, L, repo, got)
     L.stage(r5_effects, L, repo)
     L.stage(r7_none_frame, L, repo)
+    from pyutil import memo_sound
+    L.stage(memo_sound, L, repo, "C05.R8", ("ctrl_if", "ctrl_if_trx", "data_if", "udp_link"))
